@@ -86,7 +86,7 @@ def frame_offset_rules(F, rep, P):
                 rv = st_["rv"]
                 if rv["r"] != "agg" or rv.get("ak") != "tuple" or len(rv["ops"]) != 2 or op_place(rv["ops"][1]) is None:
                     continue
-                if "Frame" not in c.local_ty(st_["d"]["l"]) or "u64" not in c.local_ty(st_["d"]["l"]):
+                if c.local_ty(st_["d"]["l"]).replace(" ", "") != "(stream::Frame,u64)":
                     continue
                 n += 1
                 pos = op_place(rv["ops"][1])
@@ -255,6 +255,9 @@ def run(ctx, rep):
                     rv = st_["rv"]
                     if rv["r"] == "bin" and rv["op"].startswith("Add") and (direct(rv["a"]) or direct(rv["b"])):
                         adv = True
+                    # or the remaining distance is counted down by the step (needed -= step)
+                    if rv["r"] == "bin" and rv["op"].startswith("Sub") and direct(rv["b"]):
+                        adv = True
             rep.check("C06.skip", "%s: the position advances by exactly the step" % path, adv, loc_of(b), "",
                       "the tracked position does not advance by the amount skipped: the loop stops early or late")
 
@@ -264,7 +267,19 @@ def run(ctx, rep):
         seeks = [(i, t) for i, t in db.calls() if (t["f"].get("path") or "") == "std::io::Seek::seek"]
         writes = [(bi, s) for bi, bl in enumerate(db.blocks) for s in bl["s"] if s["d"]["p"] and place_fields(s["d"])[-1:] == ["current_sample"]]
         rets = [(bi, s) for bi, s in agg_sites(db, "std::result::Result", "Ok") if s["d"]["l"] == 0]
-        rep.check("C06.state", "every reposition has its own current_sample update", len(seeks) == len(writes) and len(seeks) >= 2, loc_of(db), "%d seeks, %d updates" % (len(seeks), len(writes)),
+        # one shared reposition fed by a (byte position, sample) pair chosen per arm is the same thing written once
+        pairs = [s for bl in db.blocks for s in bl["s"] if s["rv"]["r"] == "agg" and s["rv"].get("ak") == "tuple" and len(s["rv"]["ops"]) == 2 and db.local_ty(s["d"]["l"]).replace(" ", "") == "(u64,u64)"]
+        shared = len(seeks) == 1 and len(pairs) >= 2
+        for s in pairs if shared else ():
+            bsl = backward_slice(db, s["rv"]["ops"][0])
+            to_pt = any(re.search(r"checked_add$", callee_name(c)) for c in bsl["calls"]) or "byte_offset" in bsl["fields"]
+            if to_pt:
+                goodp = "sample_offset" in backward_slice(db, s["rv"]["ops"][1])["fields"]
+            else:
+                goodp = op_int(s["rv"]["ops"][1]) == 0 and 2 in bsl["args"] and not bsl["calls"]
+            rep.check("C06.state", "a byte target is paired with the sample position it belongs to (%s)" % ("seek point" if to_pt else "stream start"), goodp, db.loc(s["sp"]), "",
+                      "the (byte position, sample) pair handed to the shared reposition does not belong together: current_sample would not describe where the reader was put")
+        rep.check("C06.state", "every reposition has its own current_sample update", len(seeks) == len(writes) and (len(seeks) >= 2 or shared), loc_of(db), "%d seeks, %d updates" % (len(seeks), len(writes)),
                   "%d repositionings of the underlying reader but %d updates of current_sample: the decoder's sample counter goes stale on some path" % (len(seeks), len(writes)))
         for si, st in seeks:
             mine = [(bi, s) for bi, s in writes if db.dominates(si, bi) and not any(db.dominates(si, sj) and db.dominates(sj, bi) and sj != si for sj, _ in seeks)]
@@ -301,7 +316,7 @@ def run(ctx, rep):
                     for s in bl["s"]:
                         if s["rv"]["r"] == "bin" and s["rv"]["op"] == "Le":
                             le = True
-        names = [strip_generics(callee_name(t)).rsplit("::", 1)[-1] for _, t in db.calls()]
+        names = [strip_generics(callee_name(t)).rsplit("::", 1)[-1] for c2 in [db] + cl for _, t in c2.calls()]
         # idioms for "the last element satisfying the predicate": filter(p).next_back() / filter(p).last() / rev().find(p) / rfind(p)
         last_idiom = ("filter" in names and ("next_back" in names or "last" in names)) or ("rev" in names and "find" in names) or "rfind" in names
         first_idiom = ("filter" in names and "next" in names and "next_back" not in names and "last" not in names) or ("find" in names and "rev" not in names)
